@@ -1,18 +1,30 @@
 //! C12 — `Bitset<N>` agrees with a set of indices.
 //!
-//! Form R (reachable-state closure), for every capacity N of the tier:
+//! Form R (reachable-state closure), for every capacity N of `CAPS`:
 //!
 //! 1. closure BFS over the REAL `Bitset<N>` from `new()`, `default()`, `from_u64(w)` (six words) under
-//!    `set(p)`, `remove(p)`, `flip(p)` for every p of the boundary alphabet P_N, `clear()`, `!x`, and
-//!    clone-and-replace.  The search runs until no new state appears, so the verdict covers histories
-//!    of any length over that alphabet.  After EVERY transition the complete observable surface is
-//!    compared with the model (`Vec<bool>` of length 64N): `test(i)` for every i, `count()`,
-//!    `iter_bits()` (exact ascending list, at most 64N+1 items pulled), `==` / `!=` against a second
-//!    bitset built from the model by `set` and against one-bit neighbours, `Display`, `Debug`.
+//!    `set(p)`, `remove(p)`, `flip(p)` for every p of the position alphabet of N, `clear()`, `!x`,
+//!    clone-and-replace, `target.clone_from(&x)` into a target with different contents that was already
+//!    observed, and `touch(M)` (use a bitset of a neighbouring capacity on the same thread, then look at x
+//!    again).  The search runs until no new state appears, so the verdict covers histories of any length
+//!    over that alphabet.  After EVERY transition the complete observable surface is compared with the
+//!    model (`Vec<bool>` of length 64N): `test(i)` for every i, `count()`, `iter_bits()` (exact ascending
+//!    list, at most 64N+1 items pulled), `==` / `!=` against a second bitset built from the model by `set`
+//!    and against one-bit neighbours, `Display`, `Debug`.
+//!    Small capacities (N <= 10) use the boundary alphabet P_N; large ones (N = 64, 65, 130: 4096 bits,
+//!    one word more, two 4096-bit blocks and two words) use a reduced alphabet around the word and the
+//!    4096-bit block boundaries so that the closure stays small while every observer still covers all 64N bits.
 //! 2. a bounded sweep with the FULL position alphabet 0..64N (every index, not only the boundary ones)
 //!    to a small stated depth — labelled as bounded, not a closure.
 //! 3. the binary operators `& | ^` (on references) and `&= |= ^=` on ALL ordered pairs of the first
-//!    K states of the closure in BFS order (K = min(states, 1500); the cap is reported).
+//!    K states of the closure in BFS order (K = min(states, cap); the cap is reported).
+//!
+//! Capacities share code (one generic impl) and may share state on a thread or in the process (a `static`
+//! or `thread_local!` inside a generic function is ONE object for all N).  Every pass therefore runs in a
+//! thread pool of its own whose threads, as the first thing they do, use a bitset of EVERY OTHER capacity
+//! (the warm-up, in a recorded order: ascending in the main pass, descending in a second pass), and a
+//! recorded violation is re-executed on a fresh thread that performs the same warm-up first.  On a library
+//! without such shared state the warm-up changes nothing.
 //!
 //! Indices >= 64N are outside the property and are never passed.
 
@@ -28,8 +40,47 @@ use vcore::*;
 static PROGRESS: AtomicU64 = AtomicU64::new(0);
 
 const INIT_WORDS: [u64; 6] = [0, 1, 1 << 63, u64::MAX, 0xAAAA_AAAA_AAAA_AAAA, 0x8000_0000_0000_0001];
-const PAIR_CAP: usize = 1500;
 const OPS: [&str; 6] = ["and", "or", "xor", "and_assign", "or_assign", "xor_assign"];
+
+/// The capacities of both tiers, ascending.  1, 2, 3: one word, the 63/64 boundary, an inner word; 10: the
+/// capacity of the repository's own test; 64 = 4096 bits (a 64 x 64 block), 65 = one word more, 130 = two
+/// such blocks and two words.
+const CAPS: [usize; 7] = [1, 2, 3, 10, 64, 65, 130];
+const BLOCK: usize = 64 * 64;
+
+/// Instantiate a generic function for a run-time capacity (one of `CAPS`).
+macro_rules! for_cap {
+    ($n:expr, $f:ident ( $($a:expr),* )) => {
+        match $n {
+            1 => $f::<1>($($a),*),
+            2 => $f::<2>($($a),*),
+            3 => $f::<3>($($a),*),
+            10 => $f::<10>($($a),*),
+            64 => $f::<64>($($a),*),
+            65 => $f::<65>($($a),*),
+            130 => $f::<130>($($a),*),
+            other => not_a_capacity(other),
+        }
+    };
+}
+
+fn not_a_capacity<T>(n: usize) -> T {
+    eprintln!("machinery: {n} is not one of the capacities {CAPS:?}");
+    std::process::exit(2)
+}
+
+fn is_large(n: usize) -> bool {
+    n >= 64
+}
+
+/// Operands of the binary operators: the first min(states, cap) reached patterns.
+fn pair_cap(n: usize) -> usize {
+    if is_large(n) {
+        128
+    } else {
+        1500
+    }
+}
 
 #[derive(Clone, Debug, Serialize, Deserialize, PartialEq)]
 enum Act {
@@ -42,6 +93,11 @@ enum Act {
     Clear,
     Not,
     CloneReplace,
+    /// `target.clone_from(&x)` into a target with different contents (0: the complement of x, 1: empty)
+    /// that has been observed before; then continue with the target
+    CloneFromReplace(u8),
+    /// use a bitset of capacity M (another capacity) on the same thread; x itself is not touched
+    Touch(usize),
 }
 
 fn kind_of(a: &Act) -> &'static str {
@@ -55,15 +111,49 @@ fn kind_of(a: &Act) -> &'static str {
         Act::Clear => "clear",
         Act::Not => "not",
         Act::CloneReplace => "clone",
+        Act::CloneFromReplace(_) => "clone_from",
+        Act::Touch(_) => "touch",
     }
 }
 
-/// Boundary alphabet P_N of DESIGN §4 C12.
-fn boundary_positions(n: usize) -> Vec<usize> {
-    let top = 64 * n;
-    let mut v: Vec<usize> = [0, 1, 31, 62, 63, 64, 65, 127, 128, top - 2, top - 1].into_iter().filter(|&p| p < top).collect();
+const KINDS: [&str; 8] = ["set", "remove", "flip", "clear", "not", "clone", "clone_from", "touch"];
+
+fn below(top: usize, v: impl IntoIterator<Item = usize>) -> Vec<usize> {
+    let mut v: Vec<usize> = v.into_iter().filter(|&p| p < top).collect();
     v.sort();
     v.dedup();
+    v
+}
+
+/// Boundary set P_N of DESIGN §4 C12 plus the three positions around every 4096-bit block boundary:
+/// the positions of the one-bit-neighbour inequality checks (the same in both tiers and in a replay).
+fn boundary_positions(n: usize) -> Vec<usize> {
+    let top = 64 * n;
+    let blocks = (1..=top / BLOCK).flat_map(|k| [k * BLOCK - 1, k * BLOCK, k * BLOCK + 1]);
+    below(top, [0, 1, 31, 62, 63, 64, 65, 127, 128, top - 2, top - 1].into_iter().chain(blocks))
+}
+
+/// Positions of set / remove / flip in the closure.  N <= 10: all of `boundary_positions`.  Large N: the
+/// reduced alphabet {0, 63, 64, 4095, 4096, 4097, 64N-1} (quick), plus the later block boundaries (thorough).
+fn alphabet_positions(n: usize, thorough: bool) -> Vec<usize> {
+    if !is_large(n) {
+        return boundary_positions(n);
+    }
+    let top = 64 * n;
+    let blocks = (1..=if thorough { top / BLOCK } else { 1 }).flat_map(|k| [k * BLOCK - 1, k * BLOCK, k * BLOCK + 1]);
+    below(top, [0, 63, 64, top - 1].into_iter().chain(blocks))
+}
+
+/// The capacities next to n in `CAPS` (one smaller, one larger): the operands of `touch`.
+fn neighbours(n: usize) -> Vec<usize> {
+    let i = CAPS.iter().position(|&c| c == n).unwrap_or_else(|| not_a_capacity(n));
+    let mut v = vec![];
+    if i > 0 {
+        v.push(CAPS[i - 1]);
+    }
+    if i + 1 < CAPS.len() {
+        v.push(CAPS[i + 1]);
+    }
     v
 }
 
@@ -73,7 +163,7 @@ fn init_menu() -> Vec<Act> {
     v
 }
 
-fn action_menu(pos: &[usize]) -> Vec<Act> {
+fn action_menu(pos: &[usize], touch: &[usize]) -> Vec<Act> {
     let mut v = vec![];
     v.extend(pos.iter().map(|&p| Act::Set(p)));
     v.extend(pos.iter().map(|&p| Act::Remove(p)));
@@ -81,7 +171,90 @@ fn action_menu(pos: &[usize]) -> Vec<Act> {
     v.push(Act::Clear);
     v.push(Act::Not);
     v.push(Act::CloneReplace);
+    v.push(Act::CloneFromReplace(0));
+    v.push(Act::CloneFromReplace(1));
+    v.extend(touch.iter().map(|&m| Act::Touch(m)));
     v
+}
+
+// ---------------------------------------------------------------------------------------------
+// interference: other capacities on the same thread
+
+static WARMUPS: AtomicU64 = AtomicU64::new(0);
+static POOLS: AtomicU64 = AtomicU64::new(0);
+
+/// Use a bitset of capacity M on the calling thread: constructors, point operations, every observer,
+/// every operator, clone / clone_from.  Nothing is judged here (capacity M has passes of its own) and a
+/// panic is swallowed: the call only gives state shared between capacities the chance to be set up by M.
+fn touch_n<const M: usize>() {
+    PROGRESS.fetch_add(1, Ordering::Relaxed);
+    let top = 64 * M;
+    let _ = catch(|| {
+        let mut b = Bitset::<M>::from_u64(0x8000_0000_0000_0001);
+        b.set(top - 1);
+        b.flip(top / 2);
+        b.remove(0);
+        let c = !b.clone();
+        let _ = catch(|| format!("{}", b));
+        let _ = catch(|| format!("{:?}", b));
+        let _ = catch(|| format!("{}", c));
+        for x in [&b, &c] {
+            let _ = catch(|| (x.count(), x.iter_bits().take(top + 1).count(), x.test(top - 1)));
+        }
+        let _ = catch(|| (b == c, &b & &c, &b | &c, &b ^ &c));
+        let _ = catch(|| {
+            let mut d = Bitset::<M>::default();
+            d |= &b;
+            d &= &c;
+            d ^= &b;
+            d.clone_from(&c);
+            d.clear();
+        });
+    });
+}
+
+fn touch(m: usize) {
+    for_cap!(m, touch_n())
+}
+
+#[derive(Clone, Copy, PartialEq)]
+enum Order {
+    Ascending,
+    Descending,
+}
+
+impl Order {
+    fn name(self) -> &'static str {
+        match self {
+            Order::Ascending => "ascending",
+            Order::Descending => "descending",
+        }
+    }
+}
+
+/// Every capacity other than n, in the given order.
+fn warmup_list(n: usize, order: Order) -> Vec<usize> {
+    let mut v: Vec<usize> = CAPS.iter().copied().filter(|&c| c != n).collect();
+    if order == Order::Descending {
+        v.reverse();
+    }
+    v
+}
+
+fn warm_up(list: &[usize]) {
+    list.iter().for_each(|&m| touch(m));
+    WARMUPS.fetch_add(1, Ordering::Relaxed);
+}
+
+/// Run `f` in a thread pool of its own; each of its threads performs the warm-up before anything else, so
+/// what a thread has done when it judges a call is: the warm-up, then calls on the pass's capacity only.
+fn in_fresh_pool<R: Send>(warm: Vec<usize>, f: impl FnOnce() -> R + Send) -> R {
+    POOLS.fetch_add(1, Ordering::Relaxed);
+    let pool = rayon::ThreadPoolBuilder::new().start_handler(move |_| warm_up(&warm)).build().unwrap_or_else(|e| {
+        eprintln!("machinery: cannot build a thread pool: {e}");
+        std::process::exit(2)
+    });
+    pool.install(f)
 }
 
 // ---------------------------------------------------------------------------------------------
@@ -108,7 +281,7 @@ fn model_apply(m: &mut [bool], a: &Act) {
         Act::Flip(p) => m[p] = !m[p],
         Act::Clear => m.iter_mut().for_each(|b| *b = false),
         Act::Not => m.iter_mut().for_each(|b| *b = !*b),
-        Act::CloneReplace => {}
+        Act::CloneReplace | Act::CloneFromReplace(_) | Act::Touch(_) => {}
         Act::New | Act::Default | Act::FromU64(_) => unreachable!(),
     }
 }
@@ -136,7 +309,7 @@ fn hex(w: &[u64]) -> String {
 /// Model-only BFS with the same constructor and action order as the explorer: the reachable bit
 /// patterns in BFS order (used to pick the operands of the binary operators deterministically).
 fn model_bfs(n: usize, pos: &[usize]) -> Vec<Vec<bool>> {
-    let menu = action_menu(pos);
+    let menu = action_menu(pos, &[]);
     let mut seen: HashSet<Vec<bool>> = HashSet::new();
     let mut order: Vec<Vec<bool>> = vec![];
     let mut queue: VecDeque<Vec<bool>> = VecDeque::new();
@@ -247,23 +420,22 @@ struct St<const N: usize> {
 struct Sys<const N: usize> {
     /// positions used by set / remove / flip
     pos: Vec<usize>,
-    /// positions of the one-bit-neighbour inequality checks (always the boundary alphabet)
+    /// positions of the one-bit-neighbour inequality checks (always `boundary_positions`)
     probe: Vec<usize>,
+    /// capacities used by `touch`
+    touch: Vec<usize>,
 }
 
 impl<const N: usize> Sys<N> {
-    fn boundary() -> Self {
-        Sys { pos: boundary_positions(N), probe: boundary_positions(N) }
+    fn closure(thorough: bool) -> Self {
+        Sys { pos: alphabet_positions(N, thorough), probe: boundary_positions(N), touch: neighbours(N) }
     }
     fn full() -> Self {
-        Sys { pos: (0..64 * N).collect(), probe: boundary_positions(N) }
+        Sys { pos: (0..64 * N).collect(), probe: boundary_positions(N), touch: neighbours(N) }
     }
-    fn named(alphabet: &str) -> Self {
-        if alphabet == "full" {
-            Self::full()
-        } else {
-            Self::boundary()
-        }
+    /// a recorded history names its own actions: no menu is needed
+    fn replay() -> Self {
+        Sys { pos: vec![], probe: boundary_positions(N), touch: vec![] }
     }
 }
 
@@ -293,7 +465,7 @@ impl<const N: usize> System for Sys<N> {
     }
 
     fn actions(&self, _s: &St<N>) -> Vec<Act> {
-        action_menu(&self.pos)
+        action_menu(&self.pos, &self.touch)
     }
 
     fn step(&self, s: &mut St<N>, a: &Act) -> Result<u64, String> {
@@ -326,6 +498,30 @@ impl<const N: usize> System for Sys<N> {
                     return Err(format!("[clone.display] {}", render_diff("the clone's Display", &d1, &d2)));
                 }
                 s.b = c;
+            }
+            Act::CloneFromReplace(kind) => {
+                let mut t = match kind {
+                    0 => !s.b.clone(),
+                    _ => Bitset::<N>::new(),
+                };
+                // the target has a life of its own before it is overwritten
+                let before = (t.count(), format!("{}", t));
+                t.clone_from(&s.b);
+                if !(t == s.b) || t != s.b {
+                    return Err(format!("[clone_from.eq] after target.clone_from(&x) the target (it held {} members) is not == to x", before.0));
+                }
+                let (d1, d2) = (format!("{}", t), format!("{}", s.b));
+                if d1 != d2 {
+                    return Err(format!("[clone_from.display] {}", render_diff("Display of the target of clone_from", &d1, &d2)));
+                }
+                s.b = t;
+            }
+            Act::Touch(m) => {
+                if m == N || !CAPS.contains(&m) {
+                    eprintln!("machinery: touch({m}) inside a history of capacity {N}");
+                    std::process::exit(2)
+                }
+                touch(m)
             }
         }
         model_apply(&mut s.m, a);
@@ -550,6 +746,8 @@ fn family_of(found: &Found) -> String {
 struct Totals {
     states: u64,
     transitions: u64,
+    prefix_states: u64,
+    prefix_transitions: u64,
     sweep_states: u64,
     sweep_transitions: u64,
     pair_evals: u64,
@@ -557,124 +755,174 @@ struct Totals {
     all_closed: bool,
 }
 
-fn closure_violation(run: &mut Run, fams: &mut Fams, n: usize, alphabet: &str, f: &Found) {
-    let fam = family_of(f);
-    let sig = format!("closure:{fam}:N={n}:{alphabet}:{}", serde_json::to_string(&f.history).unwrap());
-    let summary = format!("Bitset<{n}> after {}: {}", serde_json::to_string(&f.history).unwrap(), f.message);
-    fams.report(run, format!("closure:{fam}"), Violation::new(sig, summary, json!({"kind": "closure", "n": n, "alphabet": alphabet, "history": f.history})));
+/// What one pass (one capacity, one warm-up order) does.
+#[derive(Clone, Copy)]
+struct Plan {
+    order: Order,
+    thorough: bool,
+    /// None: no closure part; Some(None): to closure; Some(Some(d)): only histories of at most d actions
+    closure: Option<Option<usize>>,
+    /// depth of the full-alphabet sweep (0 = none)
+    sweep_depth: usize,
+    pairs: bool,
+    wall_cap: f64,
+}
+
+/// The pass a violation was found in: part of its replay value.
+struct Ctx<'a> {
+    run: &'a mut Run,
+    fams: &'a mut Fams,
+    tot: &'a mut Totals,
+    order: Order,
+    warm: Vec<usize>,
+}
+
+impl Ctx<'_> {
+    /// ":warmup=descending" for the second pass; the main pass keeps the plain signature
+    fn sig_suffix(&self) -> &'static str {
+        match self.order {
+            Order::Ascending => "",
+            Order::Descending => ":warmup=descending",
+        }
+    }
+
+    fn closure_violation(&mut self, n: usize, alphabet: &str, f: &Found) {
+        let fam = family_of(f);
+        let hist = serde_json::to_string(&f.history).unwrap();
+        let sig = format!("closure:{fam}:N={n}:{alphabet}:{hist}{}", self.sig_suffix());
+        let summary = describe(n, &self.warm, &format!("after {hist}: {}", f.message));
+        let replay = json!({"kind": "closure", "n": n, "alphabet": alphabet, "history": f.history, "warmup": self.warm});
+        self.fams.report(self.run, format!("closure:{fam}"), Violation::new(sig, summary, replay));
+    }
+}
+
+/// The one wording of a finding, used by the exploration and by the plain re-execution.
+fn describe(n: usize, warm: &[usize], what: &str) -> String {
+    format!("Bitset<{n}>, on a thread that first used bitsets of the capacities {warm:?}, {what}")
 }
 
 /// Every history of at most `depth` actions over the FULL position alphabet (every index 0..64N).
-fn sweep<const N: usize>(run: &mut Run, fams: &mut Fams, tot: &mut Totals, ev: &mut serde_json::Map<String, Value>, depth: usize, wall_cap: f64) {
+fn sweep<const N: usize>(cx: &mut Ctx, ev: &mut serde_json::Map<String, Value>, depth: usize, wall_cap: f64) {
     if depth == 0 {
         return;
     }
     let sysf = Sys::<N>::full();
     let cfgf = ExploreCfg { max_depth: Some(depth), max_states: 5_000_000, wall_cap_s: wall_cap };
     let rf = explore(&sysf, &cfgf);
-    tot.sweep_states += rf.states;
-    tot.sweep_transitions += rf.transitions;
+    cx.tot.sweep_states += rf.states;
+    cx.tot.sweep_transitions += rf.transitions;
     let mut j = rf.to_json();
     j["depth_bound"] = json!(depth);
-    j["note"] = json!("NOT a closure: every history of at most depth_bound actions with set/remove/flip on EVERY index 0..64N (plus clear, not, clone) from every constructor");
+    j["note"] = json!("NOT a closure: every history of at most depth_bound actions with set/remove/flip on EVERY index 0..64N (plus clear, not, clone, clone_from, touch) from every constructor");
     ev.insert("full_alphabet_bounded_sweep".into(), j);
     if let Some(f) = &rf.violation {
-        closure_violation(run, fams, N, "full", f);
+        cx.closure_violation(N, "full", f);
     } else if rf.completed_depth < depth && !rf.closed {
-        tot.all_closed = false;
+        cx.tot.all_closed = false;
         ev.insert("full_alphabet_bounded_sweep_incomplete".into(), json!(rf.cap_hit));
     } else if rf.transitions == 0 || rf.per_kind.get("flip").copied().unwrap_or(0) < (6 * 64 * N) as u64 {
-        run.machinery_failure(&format!("N={N}: the full-alphabet sweep did not apply flip at every index from every constructor state"));
+        cx.run.machinery_failure(&format!("N={N}: the full-alphabet sweep did not apply flip at every index from every constructor state"));
     }
 }
 
-/// `full` = closure + sweep + operator pairs; otherwise only the bounded full-alphabet sweep.
-fn run_n<const N: usize>(run: &mut Run, fams: &mut Fams, tot: &mut Totals, full: bool, sweep_depth: usize, wall_cap: f64) {
-    let mut ev = serde_json::Map::new();
-    let pos = boundary_positions(N);
-    ev.insert("bits".into(), json!(64 * N));
-    ev.insert("boundary_positions".into(), json!(pos));
-    if !full {
-        ev.insert("scope".into(), json!("bounded full-alphabet sweep only at this tier (no closure, no operator pairs)"));
-        sweep::<N>(run, fams, tot, &mut ev, sweep_depth, wall_cap);
-        run.cov(&format!("N={N}"), Value::Object(ev));
-        return;
-    }
-
-    // 1. closure over the boundary alphabet
-    let sys = Sys::<N>::boundary();
-    let cfg = ExploreCfg { max_depth: None, max_states: 5_000_000, wall_cap_s: wall_cap };
+/// Part 1: the closure over the position alphabet (or, with a depth bound, its prefix).
+fn closure_part<const N: usize>(cx: &mut Ctx, ev: &mut serde_json::Map<String, Value>, plan: &Plan, bound: Option<usize>, pats_m: &[Vec<bool>]) {
+    let sys = Sys::<N>::closure(plan.thorough);
+    let cfg = ExploreCfg { max_depth: bound, max_states: 5_000_000, wall_cap_s: plan.wall_cap };
     let r = explore(&sys, &cfg);
-    tot.states += r.states;
-    tot.transitions += r.transitions;
-    tot.all_closed &= r.closed && r.violation.is_none();
-    ev.insert("closure".into(), r.to_json());
-    for h in r.sample_histories.iter().take(2) {
-        run.sample(json!({"N": N, "history_reaching_a_state": h}));
+    let mut j = r.to_json();
+    if let Some(d) = bound {
+        cx.tot.prefix_states += r.states;
+        cx.tot.prefix_transitions += r.transitions;
+        j["depth_bound"] = json!(d);
+        j["note"] = json!("NOT a closure: every history of at most depth_bound actions over the position alphabet");
+        ev.insert("closure_prefix".into(), j);
+    } else {
+        cx.tot.states += r.states;
+        cx.tot.transitions += r.transitions;
+        cx.tot.all_closed &= r.closed && r.violation.is_none();
+        ev.insert("closure".into(), j);
+    }
+    for h in r.sample_histories.iter().take(if plan.order == Order::Ascending && !is_large(N) { 2 } else { 0 }) {
+        cx.run.sample(json!({"N": N, "history_reaching_a_state": h}));
     }
     if let Some(f) = &r.violation {
-        closure_violation(run, fams, N, "boundary", f);
+        cx.closure_violation(N, "boundary", f);
+        return;
     }
-
-    // operand patterns: model BFS order (identical to the explorer's order when the closure held)
-    let pats_m = model_bfs(N, &pos);
-    if r.violation.is_none() && r.closed {
-        if r.states != pats_m.len() as u64 {
-            run.machinery_failure(&format!("N={N}: the explorer closed with {} states but the model alone reaches {} patterns", r.states, pats_m.len()));
+    if bound.is_some() {
+        if r.transitions == 0 || r.per_kind.get("touch").copied().unwrap_or(0) == 0 {
+            cx.run.machinery_failure(&format!("N={N}: the bounded closure pass applied nothing"));
         }
-        if (r.states as usize) < (1usize << pos.len()) {
-            run.machinery_failure(&format!("N={N}: fewer states than subsets of the position alphabet"));
-        }
-        for k in ["set", "remove", "flip", "clear", "not", "clone"] {
-            if r.per_kind.get(k).copied().unwrap_or(0) == 0 {
-                run.machinery_failure(&format!("N={N}: action kind {k} was never applied"));
-            }
-        }
-        let words: Vec<Vec<u64>> = pats_m.iter().map(|m| model_words(m)).collect();
-        let has = |f: &dyn Fn(&Vec<u64>) -> bool| words.iter().any(|w| f(w));
-        if !has(&|w| w.iter().all(|&x| x == 0)) || !has(&|w| w.iter().all(|&x| x == u64::MAX)) {
-            run.machinery_failure(&format!("N={N}: the empty or the full set was not reached"));
-        }
-        for &p in &pos {
-            if !has(&|w| (w[p / 64] >> (p % 64)) & 1 == 1) || !has(&|w| (w[p / 64] >> (p % 64)) & 1 == 0) {
-                run.machinery_failure(&format!("N={N}: position {p} was not seen both set and clear"));
-            }
-        }
-        if N >= 2 {
-            // the iterator has to skip an empty first word and find a member in the last one;
-            // members on both sides of the 63/64 boundary
-            if !has(&|w| w[0] == 0 && w[N - 1] != 0) || !has(&|w| (w[0] >> 63) & 1 == 1 && w[1] & 1 == 1) {
-                run.machinery_failure(&format!("N={N}: no state with an empty first word and a non-empty last word, or none with 63 and 64 both set"));
-            }
+        return;
+    }
+    if !r.closed {
+        return;
+    }
+    let run = &*cx.run;
+    if r.states != pats_m.len() as u64 {
+        run.machinery_failure(&format!("N={N}: the explorer closed with {} states but the model alone reaches {} patterns", r.states, pats_m.len()));
+    }
+    if (r.states as usize) < (1usize << sys.pos.len()) {
+        run.machinery_failure(&format!("N={N}: fewer states than subsets of the position alphabet"));
+    }
+    for k in KINDS {
+        if r.per_kind.get(k).copied().unwrap_or(0) == 0 {
+            run.machinery_failure(&format!("N={N}: action kind {k} was never applied"));
         }
     }
+    let words: Vec<Vec<u64>> = pats_m.iter().map(|m| model_words(m)).collect();
+    let has = |f: &dyn Fn(&Vec<u64>) -> bool| words.iter().any(|w| f(w));
+    if !has(&|w| w.iter().all(|&x| x == 0)) || !has(&|w| w.iter().all(|&x| x == u64::MAX)) {
+        run.machinery_failure(&format!("N={N}: the empty or the full set was not reached"));
+    }
+    for &p in &sys.pos {
+        if !has(&|w| (w[p / 64] >> (p % 64)) & 1 == 1) || !has(&|w| (w[p / 64] >> (p % 64)) & 1 == 0) {
+            run.machinery_failure(&format!("N={N}: position {p} was not seen both set and clear"));
+        }
+    }
+    if N >= 2 {
+        // the iterator has to skip an empty first word and find a member in the last one;
+        // members on both sides of the 63/64 boundary
+        if !has(&|w| w[0] == 0 && w[N - 1] != 0) || !has(&|w| (w[0] >> 63) & 1 == 1 && w[1] & 1 == 1) {
+            run.machinery_failure(&format!("N={N}: no state with an empty first word and a non-empty last word, or none with 63 and 64 both set"));
+        }
+    }
+    if N > 64 {
+        // a member whose counterpart one 4096-bit block further is not a member, and the other way round
+        let bit = |w: &Vec<u64>, p: usize| (w[p / 64] >> (p % 64)) & 1 == 1;
+        if !has(&|w| bit(w, 0) && !bit(w, BLOCK)) || !has(&|w| !bit(w, 0) && bit(w, BLOCK)) {
+            run.machinery_failure(&format!("N={N}: no state that tells bit 0 from bit {BLOCK}"));
+        }
+    }
+}
 
-    // 2. bounded sweep with the full position alphabet
-    sweep::<N>(run, fams, tot, &mut ev, sweep_depth, wall_cap);
-
-    // 3. binary operators on all ordered pairs of the first K reached patterns
-    let k = pats_m.len().min(PAIR_CAP);
+/// Part 3: the binary operators on all ordered pairs of the first K reached patterns.
+fn pairs_part<const N: usize>(cx: &mut Ctx, ev: &mut serde_json::Map<String, Value>, pats_m: &[Vec<bool>]) {
+    let cap = pair_cap(N);
+    let k = pats_m.len().min(cap);
     let pats: Vec<Vec<u64>> = pats_m[..k].iter().map(|m| model_words(m)).collect();
+    let words = |w: &[u64]| w.iter().map(|x| format!("{x:#x}")).collect::<Vec<_>>();
     let pr = match pairs::<N>(&pats) {
         Ok(pr) => pr,
         Err((i, m)) => {
             let w = &pats[i];
             ev.insert("binary_operators".into(), json!({"skipped": "operands cannot be constructed by set(): reported as family `build`", "operator_evaluations": 0}));
-            let replay = json!({"kind": "build", "n": N, "a": w.iter().map(|x| format!("{x:#x}")).collect::<Vec<_>>()});
-            fams.report(run, "build".into(), Violation::new(format!("build:N={N}:a={}", hex(w)), format!("Bitset<{N}>: {m}"), replay));
-            run.cov(&format!("N={N}"), Value::Object(ev));
+            let replay = json!({"kind": "build", "n": N, "a": words(w), "warmup": cx.warm});
+            let v = Violation::new(format!("build:N={N}:a={}{}", hex(w), cx.sig_suffix()), describe(N, &cx.warm, &m), replay);
+            cx.fams.report(cx.run, "build".into(), v);
             return;
         }
     };
-    tot.pair_evals += pr.evals;
-    tot.pairs += pr.pairs;
+    cx.tot.pair_evals += pr.evals;
+    cx.tot.pairs += pr.pairs;
     ev.insert(
         "binary_operators".into(),
         json!({
             "reached_patterns": pats_m.len(),
             "operands_used": pr.operands,
-            "cap": PAIR_CAP,
-            "cap_applied": pats_m.len() > PAIR_CAP,
+            "cap": cap,
+            "cap_applied": pats_m.len() > cap,
             "ordered_pairs": pr.pairs,
             "operator_evaluations": pr.evals,
             "pairs_properly_overlapping": pr.overlapping,
@@ -682,28 +930,61 @@ fn run_n<const N: usize>(run: &mut Run, fams: &mut Fams, tot: &mut Totals, full:
         }),
     );
     if pr.fails.iter().all(|f| f.is_none()) && (pr.overlapping == 0 || pr.distinct_results < 3 * k as u64 / 2) {
-        run.machinery_failure(&format!("N={N}: the operand pairs are implausibly uniform (overlapping {}, distinct results {})", pr.overlapping, pr.distinct_results));
+        cx.run.machinery_failure(&format!("N={N}: the operand pairs are implausibly uniform (overlapping {}, distinct results {})", pr.overlapping, pr.distinct_results));
     }
     for op in 0..6 {
         if let Some((i, j, m)) = &pr.fails[op] {
             let (wa, wb) = (&pats[*i], &pats[*j]);
-            let sig = format!("{}:N={N}:a={}:b={}", OPS[op], hex(wa), hex(wb));
-            let replay = json!({"kind": "pair", "n": N, "op": OPS[op],
-                "a": wa.iter().map(|x| format!("{x:#x}")).collect::<Vec<_>>(),
-                "b": wb.iter().map(|x| format!("{x:#x}")).collect::<Vec<_>>()});
+            let sig = format!("{}:N={N}:a={}:b={}{}", OPS[op], hex(wa), hex(wb), cx.sig_suffix());
+            let replay = json!({"kind": "pair", "n": N, "op": OPS[op], "a": words(wa), "b": words(wb), "warmup": cx.warm});
             // the summary must be what the plain re-execution says
             let summary = pair_plain::<N>(op, wa, wb).err().unwrap_or_else(|| m.clone());
-            fams.report(run, OPS[op].to_string(), Violation::new(sig, format!("Bitset<{N}>: {summary}"), replay));
+            cx.fams.report(cx.run, OPS[op].to_string(), Violation::new(sig, describe(N, &cx.warm, &summary), replay));
         }
     }
     // one pair written out
-    if k >= 2 {
+    if k >= 2 && !is_large(N) {
         let (i, j) = (k - 1, k / 2);
         if let Ok(Ok(w)) = catch(|| pair_case::<N>(2, &build::<N>(&pats[i]), &pats[i], &build::<N>(&pats[j]), &pats[j])) {
-            run.sample(json!({"N": N, "a": hex(&pats[i]), "b": hex(&pats[j]), "a ^ b (observed through test)": hex(&w)}));
+            cx.run.sample(json!({"N": N, "a": hex(&pats[i]), "b": hex(&pats[j]), "a ^ b (observed through test)": hex(&w)}));
         }
     }
-    run.cov(&format!("N={N}"), Value::Object(ev));
+}
+
+/// One pass: capacity N after one warm-up order, in a thread pool of its own.
+fn run_n<const N: usize>(run: &mut Run, fams: &mut Fams, tot: &mut Totals, plan: Plan) {
+    let t0 = std::time::Instant::now();
+    let warm = warmup_list(N, plan.order);
+    let mut ev = serde_json::Map::new();
+    let pos = alphabet_positions(N, plan.thorough);
+    ev.insert("bits".into(), json!(64 * N));
+    ev.insert("warm_up_order".into(), json!(plan.order.name()));
+    ev.insert("warm_up_capacities_in_order".into(), json!(warm));
+    ev.insert("positions".into(), json!(pos));
+    ev.insert("neighbour_probe_positions".into(), json!(boundary_positions(N)));
+    ev.insert("touch_capacities".into(), json!(neighbours(N)));
+    let mut cx = Ctx { run, fams, tot, order: plan.order, warm: warm.clone() };
+    in_fresh_pool(warm, || {
+        // operand patterns: model BFS order (identical to the explorer's order when the closure held)
+        let pats_m = if plan.closure == Some(None) || plan.pairs { model_bfs(N, &pos) } else { vec![] };
+        if let Some(bound) = plan.closure {
+            closure_part::<N>(&mut cx, &mut ev, &plan, bound, &pats_m);
+        }
+        sweep::<N>(&mut cx, &mut ev, plan.sweep_depth, plan.wall_cap);
+        if plan.pairs {
+            pairs_part::<N>(&mut cx, &mut ev, &pats_m);
+        }
+    });
+    ev.insert("pass_wall_s".into(), json!((t0.elapsed().as_secs_f64() * 1000.0).round() / 1000.0));
+    let key = match plan.order {
+        Order::Ascending => format!("N={N}"),
+        Order::Descending => format!("N={N} after the descending warm-up"),
+    };
+    run.cov(&key, Value::Object(ev));
+}
+
+fn run_cap(n: usize, run: &mut Run, fams: &mut Fams, tot: &mut Totals, plan: Plan) {
+    for_cap!(n, run_n(run, fams, tot, plan))
 }
 
 // ---------------------------------------------------------------------------------------------
@@ -726,7 +1007,7 @@ fn confirm_n<const N: usize>(v: &Value) -> Result<(), String> {
         if wa.len() != N {
             bad_replay::<()>();
         }
-        return build_checked::<N>(&wa).map(|_| ()).map_err(|m| format!("Bitset<{N}>: {m}"));
+        return build_checked::<N>(&wa).map(|_| ());
     }
     if v["kind"] == "pair" {
         let op = OPS.iter().position(|o| v["op"] == *o).unwrap_or_else(|| bad_replay());
@@ -734,21 +1015,33 @@ fn confirm_n<const N: usize>(v: &Value) -> Result<(), String> {
         if wa.len() != N || wb.len() != N {
             bad_replay::<()>();
         }
-        return pair_plain::<N>(op, &wa, &wb).map_err(|m| format!("Bitset<{N}>: {m}"));
+        return pair_plain::<N>(op, &wa, &wb);
     }
     let hist: Vec<Value> = v["history"].as_array().cloned().unwrap_or_else(|| bad_replay());
-    let sys = Sys::<N>::named(v["alphabet"].as_str().unwrap_or("boundary"));
-    replay_history(&sys, &hist).map_err(|m| format!("Bitset<{N}> after {}: {m}", serde_json::to_string(&hist).unwrap()))
+    replay_history(&Sys::<N>::replay(), &hist).map_err(|m| format!("after {}: {m}", serde_json::to_string(&hist).unwrap()))
 }
 
+/// One recorded case on a FRESH thread that first performs the recorded warm-up (a replay file without
+/// one — written before the warm-up existed — gets none): what the thread has done before the case is
+/// then the same in the exploration, in `Run::finish` and in a later `--replay` process.
 fn confirm(v: &Value) -> Result<(), String> {
-    match v["n"].as_u64() {
-        Some(1) => confirm_n::<1>(v),
-        Some(2) => confirm_n::<2>(v),
-        Some(3) => confirm_n::<3>(v),
-        Some(10) => confirm_n::<10>(v),
-        _ => bad_replay(),
+    let n = v["n"].as_u64().unwrap_or_else(|| bad_replay()) as usize;
+    let warm: Vec<usize> = match &v["warmup"] {
+        Value::Null => vec![],
+        w => w.as_array().unwrap_or_else(|| bad_replay()).iter().map(|x| x.as_u64().unwrap_or_else(|| bad_replay()) as usize).collect(),
+    };
+    if !CAPS.contains(&n) || warm.iter().any(|m| !CAPS.contains(m) || *m == n) {
+        bad_replay::<()>();
     }
+    let v = v.clone();
+    let handle = std::thread::spawn(move || {
+        warm_up(&warm);
+        for_cap!(n, confirm_n(&v)).map_err(|m| describe(n, &warm, &m))
+    });
+    handle.join().unwrap_or_else(|_| {
+        eprintln!("replay: the replay thread panicked outside a call into the library");
+        std::process::exit(2)
+    })
 }
 
 fn watchdog(prop: String) {
@@ -788,37 +1081,77 @@ fn main() {
     let thorough = args.tier == Tier::Thorough;
     let wall_cap = args.tier.pick(25.0, 500.0);
 
-    run_n::<1>(&mut run, &mut fams, &mut tot, true, args.tier.pick(2, 3), wall_cap);
-    run_n::<2>(&mut run, &mut fams, &mut tot, true, 2, wall_cap);
-    run_n::<3>(&mut run, &mut fams, &mut tot, true, args.tier.pick(1, 2), wall_cap);
+    // main pass: every other capacity was used before on the thread, smallest first
+    let main_pass = |closure: bool, sweep_depth: usize| Plan {
+        order: Order::Ascending,
+        thorough,
+        closure: if closure { Some(None) } else { None },
+        sweep_depth,
+        pairs: closure,
+        wall_cap,
+    };
+    run_cap(1, &mut run, &mut fams, &mut tot, main_pass(true, args.tier.pick(2, 3)));
+    run_cap(2, &mut run, &mut fams, &mut tot, main_pass(true, 2));
+    run_cap(3, &mut run, &mut fams, &mut tot, main_pass(true, args.tier.pick(1, 2)));
     // N = 10: closure and operator pairs only in the thorough tier; the depth-1 sweep over all 640
     // indices (which includes `!new()`, 640 members) runs in both
-    run_n::<10>(&mut run, &mut fams, &mut tot, thorough, 1, wall_cap);
+    run_cap(10, &mut run, &mut fams, &mut tot, main_pass(thorough, 1));
+    // large capacities: closure over the reduced alphabet in both tiers, the sweep over every index only in thorough
+    for n in CAPS.into_iter().filter(|&n| is_large(n)) {
+        run_cap(n, &mut run, &mut fams, &mut tot, main_pass(true, args.tier.pick(0, 1)));
+    }
+    // second pass: the other capacities were used largest first (so the last one used is the smallest):
+    // the closure again in thorough, its prefix of depth PREFIX in quick
+    const PREFIX: usize = 2;
+    for n in CAPS {
+        let bound = if thorough { None } else { Some(PREFIX) };
+        run_cap(n, &mut run, &mut fams, &mut tot, Plan { order: Order::Descending, thorough, closure: Some(bound), sweep_depth: 0, pairs: false, wall_cap });
+    }
 
-    run.cov("capacities_closure", if thorough { json!([1, 2, 3, 10]) } else { json!([1, 2, 3]) });
-    run.cov("capacities_bounded_sweep", json!([1, 2, 3, 10]));
+    let closed: Vec<usize> = CAPS.into_iter().filter(|&n| thorough || n != 10).collect();
+    let (pools, warmups) = (POOLS.load(Ordering::Relaxed), WARMUPS.load(Ordering::Relaxed));
+    if pools != 2 * CAPS.len() as u64 || warmups < pools {
+        run.machinery_failure(&format!("{pools} thread pools and {warmups} warm-ups for {} passes", 2 * CAPS.len()));
+    }
+    run.cov("capacities", json!(CAPS));
+    run.cov("capacities_closure", json!(closed));
+    run.cov("capacities_bounded_sweep", if thorough { json!(CAPS) } else { json!([1, 2, 3, 10]) });
+    run.cov("passes_each_in_a_thread_pool_of_its_own", pools);
+    run.cov("threads_that_ran_the_warm_up", warmups);
     run.cov("states", tot.states);
     run.cov("transitions", tot.transitions);
-    run.cov("traces_validated_against_impl", tot.transitions);
+    run.cov("traces_validated_against_impl", tot.transitions + tot.prefix_transitions + tot.sweep_transitions);
+    run.cov("closure_prefix_states", tot.prefix_states);
+    run.cov("closure_prefix_transitions", tot.prefix_transitions);
     run.cov("bounded_sweep_states", tot.sweep_states);
     run.cov("bounded_sweep_transitions", tot.sweep_transitions);
     run.cov("binary_operator_ordered_pairs", tot.pairs);
     run.cov("binary_operator_evaluations", tot.pair_evals);
     run.cov("exhaustive", tot.all_closed && !run.has_violations());
-    run.cov("exhaustive_scope", "the closures over the boundary alphabet P_N (every capacity listed) and the operator pairs over the stated operands; the full-alphabet sweep is complete only to its depth bound");
+    run.cov(
+        "exhaustive_scope",
+        "the closures over the position alphabet (every capacity of capacities_closure, after the ascending warm-up; in thorough also after the descending one) and the operator pairs over the stated operands; the full-alphabet sweep and the closure prefix after the descending warm-up are complete only to their depth bounds",
+    );
     run.cov("initial_words", json!(INIT_WORDS.iter().map(|w| format!("{w:#x}")).collect::<Vec<_>>()));
     run.cov(
         "rule",
-        "per capacity N: closure BFS over the real Bitset<N> from new(), default(), from_u64(w) (six words) under set/remove/flip at every position of \
-         P_N = {0,1,31,62,63,64,65,127,128,64N-2,64N-1} below 64N, clear, !x, clone-and-replace, until no new state appears; after every transition \
-         test(i) for every i < 64N, count, iter_bits (exact list, at most 64N+1 items pulled), == / != against a bitset rebuilt by set() and against \
-         one-bit neighbours at every position of P_N, Display and Debug are compared with a Vec<bool> model; state identity = model bits + Display \
-         rendering (no field dropped). Then & | ^ and &= |= ^= on all ordered pairs (self-pairs included) of the first min(states,1500) patterns in \
-         BFS order, operands rebuilt from the pattern by set(); results and operands read back through test(i) for every i. The full-alphabet sweep \
-         (every index 0..64N) is depth-bounded and reported separately.",
+        "per capacity N of {1,2,3,10,64,65,130}: closure BFS over the real Bitset<N> from new(), default(), from_u64(w) (six words) under set/remove/flip at every \
+         position of the alphabet of N, clear, !x, clone-and-replace, target.clone_from(&x) into an already observed target that is the complement of x or empty \
+         (then continue with the target), and touch(M) for the capacities M next to N in the list (a Bitset<M> is built, rendered, counted, iterated, compared, \
+         combined and cloned on the same thread; x must be unchanged), until no new state appears. Alphabet for N <= 10: P_N = {0,1,31,62,63,64,65,127,128,64N-2,64N-1} \
+         below 64N; for N >= 64 (4096 bits = a 64x64 block, one word more, two blocks and two words): {0,63,64,4095,4096,4097,64N-1} below 64N, in thorough also \
+         the positions around the later multiples of 4096. After every transition test(i) for every i < 64N, count, iter_bits (exact list, at most 64N+1 items \
+         pulled), == / != against a bitset rebuilt by set() and against one-bit neighbours at every position of P_N and around every multiple of 4096, Display \
+         and Debug (all 64N characters) are compared with a Vec<bool> model; state identity = model bits + Display rendering (no field dropped). Then & | ^ and \
+         &= |= ^= on all ordered pairs (self-pairs included) of the first min(states, 1500; 128 for N >= 64) patterns in BFS order, operands rebuilt from the \
+         pattern by set(); results and operands read back through test(i) for every i. The full-alphabet sweep (every index 0..64N) is depth-bounded and reported \
+         separately. Interference between capacities: every pass runs in a thread pool of its own whose threads first use a bitset of every OTHER capacity \
+         (ascending in the main pass; descending in a second pass that repeats the closure - in quick its prefix of depth 2); a violation is re-executed on a \
+         fresh thread that performs the recorded warm-up and then the recorded case.",
     );
     run.assume("Display of a Bitset together with test(i) for every i < 64N exposes its complete state (the struct has the single field `data`); state identity uses the model bits plus the Display rendering");
-    run.assume("histories over positions outside P_N are covered only to the stated depth of the full-alphabet sweep; capacities other than those listed are not explored");
+    run.assume("histories over positions outside the alphabet of N are covered only to the stated depth of the full-alphabet sweep (quick: no such sweep for N >= 64); capacities other than those listed are not explored");
+    run.assume("state shared between capacities is exercised through: the warm-up orders (all other capacities ascending / descending before the first judged call of a thread) and touch(M) inside histories for the neighbouring capacities; what a worker thread did for OTHER states of the same capacity before a judged call is not part of a recorded history");
     run.assume("a call into the library that never returns cannot be decided without a clock: a watchdog turns a 120 s stall into exit 2 (machinery), never into a verdict");
     run.finish(&confirm)
 }
